@@ -32,7 +32,7 @@ REQUIRED = {
 
 
 def budget(tier):
-    return 220 if tier == "quick" else 6000
+    return 220 if tier == "quick" else 60000
 
 
 def gen_case(rng, tier, idx):
